@@ -1397,8 +1397,21 @@ impl DefaultFunction {
                 Ok(Value::Con(constant.into()))
             }
             DefaultFunction::Bls12_381_G2_MultiScalarMul => {
-                let (_, scalars) = args[0].unwrap_list()?;
-                let (_, points) = args[1].unwrap_list()?;
+                let (scalars_type, scalars) = args[0].unwrap_list()?;
+                let (points_type, points) = args[1].unwrap_list()?;
+
+                // The element types are part of the arguments' types: an empty list of
+                // anything else is still a type error.
+                if scalars_type != &Type::Integer {
+                    return Err(Error::TypeMismatch(Type::Integer, scalars_type.clone()));
+                }
+
+                if points_type != &Type::Bls12_381G2Element {
+                    return Err(Error::TypeMismatch(
+                        Type::Bls12_381G2Element,
+                        points_type.clone(),
+                    ));
+                }
 
                 // Every scalar (in the full first list, regardless of the
                 // point list length) must fit within the 512-byte bound.
@@ -1938,8 +1951,21 @@ impl DefaultFunction {
                 Ok(Value::integer(exp_mod_integer(base, exponent, modulus)?))
             }
             DefaultFunction::Bls12_381_G1_MultiScalarMul => {
-                let (_, scalars) = args[0].unwrap_list()?;
-                let (_, points) = args[1].unwrap_list()?;
+                let (scalars_type, scalars) = args[0].unwrap_list()?;
+                let (points_type, points) = args[1].unwrap_list()?;
+
+                // The element types are part of the arguments' types: an empty list of
+                // anything else is still a type error.
+                if scalars_type != &Type::Integer {
+                    return Err(Error::TypeMismatch(Type::Integer, scalars_type.clone()));
+                }
+
+                if points_type != &Type::Bls12_381G1Element {
+                    return Err(Error::TypeMismatch(
+                        Type::Bls12_381G1Element,
+                        points_type.clone(),
+                    ));
+                }
 
                 // Validate that every scalar (in the *whole* first list, before
                 // zipping) lies within the allowed bound, matching Plutus'
